@@ -30,7 +30,8 @@ def slug(s):
 def run_replay(target, mode, model=None, n=200, seed=0, timeout=120):
     cmd = [VENV_PY, "-m", "pyvc.replay", "--target", target, "--mode", mode, "--n", str(n), "--seed", str(seed), "--timeout", str(timeout), "--model", json.dumps(model or {}, default=str)]
     env = dict(os.environ)
-    env["PYTHONPATH"] = HERE
+    # /venv imports /repo (editable install); a scratch copy under test (VERIF_REPO) must shadow it
+    env["PYTHONPATH"] = HERE if os.path.realpath(REPO) == "/repo" else REPO + os.pathsep + HERE
     try:
         p = subprocess.run(cmd, capture_output=True, text=True, timeout=timeout + 20, cwd=HERE, env=env)
     except subprocess.TimeoutExpired:
